@@ -60,7 +60,9 @@ class AwesomeyamlLoader(yaml.Loader):
 
         aynode = self._convert(value, node)
 
-        if not deep and value is not aynode:
+        # note: if an enclosing node is being constructed in the "deep" mode, PyYAML has already populated
+        # ``value`` (regardless of our own ``deep`` argument), hence ``aynode`` already holds all its children
+        if not deep and not self.deep_construct and value is not aynode:
             if isinstance(node, yaml.SequenceNode):
                 self.state_generators.append(self._make_generator(value, aynode.extend))
             elif isinstance(node, yaml.MappingNode):
